@@ -6,13 +6,14 @@ From Verif Require Import C15.Model C15.Proofs.
 Import ListNotations.
 Open Scope Z_scope.
 
-(* ---- hypotheses are satisfiable, the model computes, classes are non-empty *)
+(* ---- hypotheses are satisfiable, the model computes *)
 Example C15_nonvacuous :
   let T := mkTables full full full [(s "rand", s """0.8""")] in
   let main := Node 1 0 [] (KCons 10 (Node 90 0 (s "rand") KNil)
                            (KCons 11 (Node 2 0 [] (KCons 20 (Node 30 1 [] KNil) KNil)) KNil)) in
-  let g := cli_gen T (s "hello") (s "/repo") (s "0.1.0") main [s "rand"] in
+  let g := cli_gen T (s "hello") (s "/repo") (s "0.1.0") main [] in
   uses trig_serde main = true /\ g_serde g = true /\ g_tokio g = false /\
+  cli_build T (s "hello") (s "/repo") (s "0.1.0") main [] = Some g /\
   dep_names g = [s "incan_stdlib"; s "incan_derive"; s "serde"; s "serde_json"; s "rand"] /\
   forallb dep_pinned (deps g) = true /\ manifest_ok g = true /\ legal_name (s "hello") = true /\
   table_ok (t_versions T) = true /\ covers (t_serde T) [].
@@ -63,111 +64,142 @@ Proof.
 Qed.
 Print Assumptions C15_writer_declares.
 
-(* P6 end to end through prepare_project, on the complement of the two known classes
-      (scanner-arms: use hidden behind a listed unscanned edge; dep-module: use only in an imported
-      module): whatever the generated Rust needs is declared *)
-Theorem C15_declares_needed : forall T kS kA kW name root ver main dps order,
+(* P6 end to end through prepare_project (main module and imported modules are scanned): whatever
+      the generated Rust of ANY module needs is declared.  Stated for every edge table; the class
+      hypothesis is void for a scanner that follows every edge (known lists empty: P6') *)
+Theorem C15_declares_needed : forall T kS kA kW name root ver main dps,
   covers (t_serde T) kS -> covers (t_async T) kA -> covers (t_web T) kW ->
-  (forall c, In c (rust_crates main) -> In c order) ->
-  ~ Known_C15_scanner_arms kS trig_serde main -> ~ Known_C15_scanner_arms kA trig_async main ->
-  ~ Known_C15_scanner_arms kW trig_web main ->
-  ~ Known_C15_dep_module trig_serde main dps -> ~ Known_C15_dep_module trig_async main dps ->
-  ~ Known_C15_dep_module trig_web main dps ->
-  (forall c, ~ Known_C15_dep_module_crate c main dps) ->
-  let g := cli_gen T name root ver main order in
+  (forall m, In m (main :: dps) -> ~ Known_C15_scanner_arms kS trig_serde m) ->
+  (forall m, In m (main :: dps) -> ~ Known_C15_scanner_arms kA trig_async m) ->
+  (forall m, In m (main :: dps) -> ~ Known_C15_scanner_arms kW trig_web m) ->
+  let g := cli_gen T name root ver main dps in
   (needs_serde main dps = true -> In (s "serde") (dep_names g) /\ In (s "serde_json") (dep_names g)) /\
   (needs_tokio main dps = true -> In (s "tokio") (dep_names g)) /\
   (needs_web main dps = true -> In (s "axum") (dep_names g) /\ In (s "tokio") (dep_names g)) /\
   (forall c, needs_crate c main dps = true -> In c (dep_names g)).
 Proof.
-  intros T kS kA kW name root ver main dps order CS CA CW HO NS NA NW DS DA DW DC g.
-  (* a need in the program is a use in main (else the dep-module class) and is detected (else scanner-arms) *)
-  assert (F : forall tbl known trig, covers tbl known -> ~ Known_C15_scanner_arms known trig main ->
-              ~ Known_C15_dep_module trig main dps -> any_uses trig (main :: dps) = true -> detect tbl trig main = true).
-  { intros tbl known trig C NKn ND U. unfold any_uses in U. cbn [existsb] in U.
-    destruct (uses trig main) eqn:UM.
-    - now apply (detect_outside_known tbl known trig main C).
-    - exfalso. apply ND. split; [exact UM | exact U]. }
+  intros T kS kA kW name root ver main dps CS CA CW NS NA NW g.
+  assert (F : forall tbl known trig, covers tbl known ->
+              (forall m, In m (main :: dps) -> ~ Known_C15_scanner_arms known trig m) ->
+              any_uses trig (main :: dps) = true -> existsb (detect tbl trig) (main :: dps) = true).
+  { intros tbl known trig C NK U. unfold any_uses in U. apply existsb_exists in U as [m [Im Um]].
+    apply existsb_exists. exists m. split; [exact Im|].
+    exact (detect_outside_known tbl known trig m C Um (NK m Im)). }
   assert (W : needs_web main dps = true -> g_axum g = true).
   { intros H. unfold g, cli_gen, flag_web. cbn [g_axum]. now apply (F _ kW). }
   split; [|split; [|split]].
   - intros H. apply serde_declared. unfold g, cli_gen, flag_serde. cbn [g_serde].
     unfold needs_serde in H. apply orb_true_iff in H as [H|H].
-    + rewrite (F _ kS trig_serde CS NS DS H). reflexivity.
+    + rewrite (F _ kS trig_serde CS NS H). reflexivity.
     + specialize (W H). unfold g, cli_gen in W. cbn [g_axum] in W. rewrite W. apply orb_true_r.
   - intros H. apply tokio_declared. unfold needs_tokio in H. apply orb_true_iff in H as [H|H].
-    + left. unfold g, cli_gen, flag_tokio. cbn [g_tokio]. rewrite (F _ kA trig_async CA NA DA H). reflexivity.
+    + left. unfold g, cli_gen, flag_tokio. cbn [g_tokio]. rewrite (F _ kA trig_async CA NA H). reflexivity.
     + right. now apply W.
   - intros H. split; [apply axum_declared | apply tokio_declared; right]; now apply W.
-  - intros c H. unfold needs_crate in H. cbn [existsb] in H.
-    destruct (mem c (rust_crates main)) eqn:M.
-    + apply (crate_declared g c (lookup (t_versions T) c)). unfold g, cli_gen. cbn [g_crates].
-      apply in_map_iff. exists c. split; [reflexivity|]. apply HO. now apply mem_In.
-    + exfalso. apply (DC c). split; [exact M | exact H].
+  - intros c H. unfold needs_crate in H. apply existsb_exists in H as [m [Im Hm]].
+    apply (crate_declared g c (lookup (t_versions T) c)). unfold g, cli_gen. cbn [g_crates].
+    apply in_map_iff. exists c. split; [reflexivity|]. unfold all_crates. apply dedup_In.
+    apply in_flat_map. exists m. split; [exact Im | now apply mem_In].
 Qed.
 Print Assumptions C15_declares_needed.
 
-(* P7 declares only what is needed: every dependency is a runtime crate, follows from a feature the
-      main module really uses, or is a `rust::` import of the main module *)
-Theorem C15_declares_only_needed : forall T name root ver main order c,
-  (forall x, In x order -> In x (rust_crates main)) ->
-  In c (dep_names (cli_gen T name root ver main order)) ->
-  c = s "incan_stdlib" \/ c = s "incan_derive" \/
-  ((c = s "serde" \/ c = s "serde_json") /\ needs_serde main [] = true) \/
-  (c = s "tokio" /\ needs_tokio main [] = true) \/
-  (c = s "axum" /\ needs_web main [] = true) \/
-  In c (rust_crates main).
+(* P6' for a scanner that follows every edge nothing has to be excluded *)
+Theorem C15_declares_needed_full : forall T name root ver main dps,
+  covers (t_serde T) [] -> covers (t_async T) [] -> covers (t_web T) [] ->
+  let g := cli_gen T name root ver main dps in
+  (needs_serde main dps = true -> In (s "serde") (dep_names g) /\ In (s "serde_json") (dep_names g)) /\
+  (needs_tokio main dps = true -> In (s "tokio") (dep_names g)) /\
+  (needs_web main dps = true -> In (s "axum") (dep_names g) /\ In (s "tokio") (dep_names g)) /\
+  (forall c, needs_crate c main dps = true -> In c (dep_names g)).
 Proof.
-  intros T name root ver main order c HO H. set (g := cli_gen T name root ver main order) in *.
-  assert (W : g_axum g = true -> needs_web main [] = true).
-  { unfold g, cli_gen, flag_web, needs_web, any_uses. cbn [g_axum existsb]. intros E.
-    rewrite (detect_sound _ _ _ E). reflexivity. }
-  assert (S : g_serde g = true -> needs_serde main [] = true).
-  { unfold g, cli_gen, flag_serde, needs_serde, any_uses. cbn [g_serde existsb]. intros E.
-    apply orb_true_iff in E as [E|E].
-    - rewrite (detect_sound _ _ _ E). reflexivity.
-    - apply orb_true_iff. right. apply W. exact E. }
-  assert (K : g_tokio g = true -> needs_tokio main [] = true).
-  { unfold g, cli_gen, flag_tokio, needs_tokio, any_uses. cbn [g_tokio existsb]. intros E.
-    apply orb_true_iff in E as [E|E].
-    - rewrite (detect_sound _ _ _ E). reflexivity.
-    - apply orb_true_iff. right. apply W. exact E. }
+  intros T name root ver main dps CS CA CW.
+  apply (C15_declares_needed T [] [] [] name root ver main dps CS CA CW);
+    intros m _ [U D]; unfold uses in U; rewrite (detect_mono full (full_except []) _ m) in D; try discriminate; auto.
+Qed.
+Print Assumptions C15_declares_needed_full.
+
+(* P7 declares only what is needed: every dependency is a runtime crate, follows from a feature some
+      module of the program really uses, or is a `rust::` import of some module *)
+Theorem C15_declares_only_needed : forall T name root ver main dps c,
+  In c (dep_names (cli_gen T name root ver main dps)) ->
+  c = s "incan_stdlib" \/ c = s "incan_derive" \/
+  ((c = s "serde" \/ c = s "serde_json") /\ needs_serde main dps = true) \/
+  (c = s "tokio" /\ needs_tokio main dps = true) \/
+  (c = s "axum" /\ needs_web main dps = true) \/
+  needs_crate c main dps = true.
+Proof.
+  intros T name root ver main dps c H. set (g := cli_gen T name root ver main dps) in *.
+  assert (D : forall tbl trig, existsb (detect tbl trig) (main :: dps) = true -> any_uses trig (main :: dps) = true).
+  { intros tbl trig E. apply existsb_exists in E as [m [Im Em]]. apply existsb_exists. exists m.
+    split; [exact Im | exact (detect_sound _ _ _ Em)]. }
+  assert (W : g_axum g = true -> needs_web main dps = true).
+  { unfold g, cli_gen, flag_web, needs_web. cbn [g_axum]. apply D. }
+  assert (S : g_serde g = true -> needs_serde main dps = true).
+  { unfold g, cli_gen, flag_serde, needs_serde. cbn [g_serde]. intros E.
+    apply orb_true_iff in E as [E|E]; apply orb_true_iff; [left; exact (D _ _ E) | right; apply W; exact E]. }
+  assert (K : g_tokio g = true -> needs_tokio main dps = true).
+  { unfold g, cli_gen, flag_tokio, needs_tokio. cbn [g_tokio]. intros E.
+    apply orb_true_iff in E as [E|E]; apply orb_true_iff; [left; exact (D _ _ E) | right; apply W; exact E]. }
   unfold dep_names, deps in H. rewrite map_app in H. apply in_app_or in H as [H|H].
   - apply added_only in H as [H|[H|[[H E]|[[H E]|[H E]]]]]; auto 10.
     right; right; right; left. split; [exact H|]. destruct E as [E|E]; [now apply K|].
     unfold needs_tokio. rewrite (W E). apply orb_true_r.
   - apply rust_dep_only in H as [v H]. unfold g, cli_gen in H. cbn [g_crates] in H.
-    apply in_map_iff in H as [x [E Hx]]. injection E as -> _. auto 10.
+    apply in_map_iff in H as [x [E Hx]]. injection E as -> _.
+    right; right; right; right; right. unfold all_crates in Hx. apply dedup_In_inv in Hx.
+    apply in_flat_map in Hx as [m [Im Hm]]. unfold needs_crate. apply existsb_exists. exists m.
+    split; [exact Im | now apply In_mem].
 Qed.
 Print Assumptions C15_declares_only_needed.
 
 (* ---- pinned *)
-(* P8 refuted as stated: an unknown `rust::` crate is written with the wildcard version *)
-Theorem C15_every_dep_pinned_refuted : exists T name root ver main order,
-  table_ok (t_versions T) = true /\ Permutation order (rust_crates main) /\
-  Known_C15_wildcard (cli_gen T name root ver main order) /\
-  In (s "foobarbaz", s """*""") (deps (cli_gen T name root ver main order)) /\
-  forallb dep_pinned (deps (cli_gen T name root ver main order)) = false.
-Proof.
-  exists (mkTables full full full [(s "rand", s """0.8""")]), (s "a"), (s "/repo"), (s "0.1.0"),
-         (Node 1 0 [] (KCons 10 (Node 90 0 (s "foobarbaz") KNil) KNil)), [s "foobarbaz"].
-  split; [vm_compute; reflexivity|]. split; [vm_compute; apply Permutation_refl|].
-  split; [apply wildcard_b_spec; vm_compute; reflexivity|]. split; [vm_compute; auto 10|]. vm_compute. reflexivity.
-Qed.
-Print Assumptions C15_every_dep_pinned_refuted.
-
-(* P9 on the complement (no crate outside the known-good table), with ANY table whose entries are
-      pinned (checked on the regenerated table in every run): every dependency has a version or a path *)
-Theorem C15_every_dep_pinned : forall T name root ver main order,
+(* P8 whenever `incan build` writes a project, every dependency has a version or a path (for ANY
+      table whose entries are pinned — checked on the regenerated table in every run) *)
+Theorem C15_every_dep_pinned : forall T name root ver main dps g,
   table_ok (t_versions T) = true ->
-  ~ Known_C15_wildcard (cli_gen T name root ver main order) ->
-  forall d, In d (deps (cli_gen T name root ver main order)) -> dep_pinned d = true.
+  cli_build T name root ver main dps = Some g ->
+  forall d, In d (deps g) -> dep_pinned d = true.
 Proof.
-  intros T name root ver main order TO NK. apply forallb_forall. apply deps_pinned; [|exact NK].
-  intros c sp H. unfold cli_gen in H. cbn [g_crates] in H. apply in_map_iff in H as [x [E _]].
-  injection E as -> E. exact (lookup_pinned _ _ _ TO E).
+  intros T name root ver main dps g TO B. unfold cli_build in B.
+  destruct (legal_name name && forallb (fun c => is_some (lookup (t_versions T) c)) (all_crates (main :: dps))) eqn:E;
+    [|discriminate]. injection B as <-.
+  apply forallb_forall. apply deps_pinned.
+  - intros c sp H. unfold cli_gen in H. cbn [g_crates] in H. apply in_map_iff in H as [x [Ex _]].
+    injection Ex as -> Ex. exact (lookup_pinned _ _ _ TO Ex).
+  - intros [c [H _]]. unfold cli_gen in H. cbn [g_crates] in H. apply in_map_iff in H as [x [Ex Hx]].
+    injection Ex as -> Ex. apply andb_true_iff in E as [_ E].
+    pose proof (proj1 (forallb_forall _ _) E c Hx) as S. cbv beta in S. rewrite Ex in S. discriminate.
 Qed.
 Print Assumptions C15_every_dep_pinned.
+
+(* P9 a crate without a known-good version, or an illegal file stem, is refused: no project *)
+Theorem C15_unknown_crate_refused : forall T name root ver main dps c,
+  In c (all_crates (main :: dps)) -> lookup (t_versions T) c = None ->
+  cli_build T name root ver main dps = None.
+Proof.
+  intros T name root ver main dps c I L. unfold cli_build.
+  destruct (forallb (fun c0 => is_some (lookup (t_versions T) c0)) (all_crates (main :: dps))) eqn:E.
+  - pose proof (proj1 (forallb_forall _ _) E c I) as S. cbv beta in S. rewrite L in S. discriminate.
+  - now rewrite andb_false_r.
+Qed.
+Print Assumptions C15_unknown_crate_refused.
+
+Theorem C15_illegal_name_refused : forall T name root ver main dps,
+  Known_C15_project_name name -> cli_build T name root ver main dps = None.
+Proof. intros T name root ver main dps H. unfold cli_build. unfold Known_C15_project_name in H. now rewrite H. Qed.
+Print Assumptions C15_illegal_name_refused.
+
+(* regression witnesses of the repaired defects (closed computations on the old failing inputs) *)
+Example C15_regression_witnesses :
+  let T := mkTables full full full [(s "rand", s """0.8""")] in
+  (* `import rust::foobarbaz` was written as foobarbaz = "*" *)
+  cli_build T (s "a") (s "/repo") (s "0.1.0") (Node 1 0 [] (KCons 10 (Node 90 0 (s "foobarbaz") KNil) KNil)) [] = None /\
+  (* json_stringify only in an imported module: serde was not declared *)
+  In (s "serde_json") (dep_names (cli_gen T (s "a") (s "/repo") (s "0.1.0") (Node 1 0 [] KNil) [Node 1 0 [] (KCons 11 (Node 30 1 [] KNil) KNil)])) /\
+  In (s "rand") (dep_names (cli_gen T (s "a") (s "/repo") (s "0.1.0") (Node 1 0 [] KNil) [Node 1 0 [] (KCons 10 (Node 90 0 (s "rand") KNil) KNil)])) /\
+  (* `my prog.incn` produced a manifest cargo rejects *)
+  cli_build T (s "my prog") (s "/repo") (s "0.1.0") (Node 1 0 [] KNil) [] = None.
+Proof. cbv zeta. repeat split; vm_compute; auto 10. Qed.
 
 (* ---- valid TOML *)
 (* P10 PARTIAL (manifest_valid_toml): the two lines that carry the project name are valid TOML for
